@@ -179,6 +179,8 @@ def arr_profile(env, isort=INT, esort=INT):
            m.Array(it, ec[1], {ic[1]: ec[0]}))
     # an array literal whose stored value is a symbol (occurring nowhere else in the literal)
     p.leaf(A, m.Array(it, ec[0], {ic[1]: p.sym("e" if esort != isort else "i", esort)}))
+    # an array literal whose default element is a symbol that occurs nowhere else
+    p.leaf(A, m.Array(it, p.sym("dflt", esort)))
     p.leaf(isort, p.sym("i", isort), *ic[:2])
     if esort != isort:
         if esort == BOOL:
@@ -323,4 +325,29 @@ def mixed_profile(env, quant=False, uf=True):
         p.op("forall_y", [BOOL], BOOL, lambda m, t: m.ForAll([y], t))
         p.op("exists_v", [BOOL], BOOL, lambda m, t: m.Exists([v], t))
         p.op("forall_a", [BOOL], BOOL, lambda m, t: m.ForAll([a], t))
+    return p
+
+
+def ufarr_profile(env):
+    """uninterpreted functions with array arguments, applied to array literals over a finite index sort that are
+    different nodes but the same array (K(T)[0:=F][1:=F] and K(F)), next to other arguments that differ"""
+    p = Profile("ufarr", env)
+    m = p.m
+    B1 = ("BV", 1)
+    AR = ("Array", B1, BOOL)
+    it = mk_type(env, B1)
+    a, b = p.sym("a", BOOL), p.sym("b", BOOL)
+    arr = p.sym("A", AR)
+    f = p.sym("f", ("Fun", BOOL, (AR, BOOL)))
+    g = p.sym("g", ("Fun", AR, (AR,)))
+    z, o = m.BV(0, 1), m.BV(1, 1)
+    lits = [m.Array(it, m.FALSE()), m.Array(it, m.TRUE(), {z: m.FALSE(), o: m.FALSE()}),
+            m.Array(it, m.TRUE(), {z: m.FALSE()}), m.Array(it, m.FALSE(), {o: m.TRUE()})]
+    p.leaf(AR, arr, *lits)
+    p.leaf(BOOL, a, b)
+    p.op("f", [AR, BOOL], BOOL, lambda m, t, w: m.Function(f, [t, w]))
+    p.op("g", [AR], AR, lambda m, t: m.Function(g, [t]))
+    p.op("iff", [BOOL, BOOL], BOOL, lambda m, t, w: m.Iff(t, w))
+    p.op("eqa", [AR, AR], BOOL, lambda m, t, w: m.Equals(t, w))
+    p.op("not", [BOOL], BOOL, lambda m, t: m.Not(t))
     return p
